@@ -26,7 +26,10 @@ func randomScenario(seed int64) Scenario {
 	rng := rand.New(rand.NewSource(seed))
 	sc := Scenario{
 		Name: fmt.Sprintf("random-%d", seed), Seed: seed, Mode: "random", NewState: rng.Intn(2) == 0,
-		InitLen: 3 + rng.Intn(7), MaxFaults: rng.Intn(4), Steps: 15 + rng.Intn(70),
+		InitLen: 1 + rng.Intn(9), MaxFaults: rng.Intn(4), Steps: 15 + rng.Intn(70),
+	}
+	if rng.Intn(3) == 0 {
+		sc.Restarts = 1
 	}
 	n := sc.InitLen
 	for k := rng.Intn(4); k > 0; k-- {
@@ -108,33 +111,48 @@ func TestSyncRecord(t *testing.T) {
 		sc := &scs[i]
 		r, err := execute(sc, tr+1)
 		if err == nil && i == 0 {
-			if cerr := r.w.selfCheck(); cerr != nil {
-				out.Stats["broken"] = cerr.Error()
-				t.Fatalf("recorder self-check: %v", cerr)
+			// what the real verifier says about the answer kinds (a verifier that accepts a corrupted
+			// copy is a defect of the tree under test, not of the machinery)
+			accepted, forgedRejected := r.w.selfCheck()
+			for _, c := range accepted {
+				out.Diverge(vh.Divergence{
+					Key:  "sync:verification-accepts-corrupt-block:" + c,
+					What: "SanityCheckNewHeight accepts a copy of a source block with one field altered (" + c + ")",
+					Input: vh.J{"gomaxprocs": in.GoMaxProcs, "scenarios": []Scenario{*sc}},
+				})
+			}
+			if forgedRejected {
+				out.Count("forged_kind_rejected_by_verifier", 1)
 			}
 		}
 		if err != nil {
 			out.Stats["broken"] = fmt.Sprintf("scenario %s: %s", sc.Name, err)
 			t.Fatalf("scenario %s: %s", sc.Name, err)
 		}
-		if r.broken != "" || r.hung != "" {
-			// The node stopped calling the source / never returned. If the run had already shown a
-			// violation, that observation stands (and is the likely cause); otherwise the machinery
-			// is at fault. Either way no further scenario is run in this process.
-			fs := monitor(r)
+		if r.broken != "" || r.hung != "" || r.panicked != "" {
+			// The real node stopped calling the source, never returned, or panicked. What the run had
+			// shown before stands; if it had shown nothing, the stop itself is the violation (the
+			// environment kept offering answers). No further scenario is run in this process.
+			fs := append(monitor(r), r.extra...)
 			why := r.broken + r.hung
+			switch {
+			case r.panicked != "":
+				why = "panic: " + r.panicked
+				fs = append(fs, finding{key: "sync:node-panicked", what: "the node panicked: " + firstLine(r.panicked), step: len(r.events) - 1})
+			case len(fs) == 0 && r.hung != "":
+				fs = append(fs, finding{key: "sync:node-does-not-stop", what: r.hung, step: len(r.events) - 1})
+			case len(fs) == 0:
+				fs = append(fs, finding{key: "sync:no-convergence:node-stopped-calling-source",
+					what: "the node made no call to the source for " + stallTimeout.String() + " although its chain differs from the source's or it is expected to keep polling", step: len(r.events) - 1})
+			}
 			for _, f := range fs {
 				out.Diverge(vh.Divergence{
-					Key: f.key, What: f.what + " [scenario " + sc.Name + "; afterwards: " + why + "]",
+					Key: f.key, What: f.what + " [scenario " + sc.Name + "; afterwards: " + firstLine(why) + "]",
 					Input: vh.J{"gomaxprocs": in.GoMaxProcs, "scenarios": []Scenario{replayScenario(r)}},
 					Step:  f.step, Observed: tail(r.events, f.step, 14),
 				})
 			}
 			out.Count("runs_node_hung", 1)
-			if len(fs) == 0 {
-				out.Stats["broken"] = fmt.Sprintf("scenario %s: %s", sc.Name, why)
-				t.Fatalf("scenario %s: %s", sc.Name, why)
-			}
 			break
 		}
 		if r.lateWrite > 0 { // the node was not quiescent when the run was closed: inconclusive
@@ -142,7 +160,7 @@ func TestSyncRecord(t *testing.T) {
 			continue
 		}
 		tr++
-		fs := monitor(r)
+		fs := append(monitor(r), r.extra...)
 		keys := []string{}
 		for _, f := range fs {
 			keys = append(keys, f.key)
@@ -189,6 +207,15 @@ func TestSyncRecord(t *testing.T) {
 	out.Done(tr, nEvents)
 }
 
+func firstLine(s string) string {
+	for i, c := range s {
+		if c == '\n' {
+			return s[:i]
+		}
+	}
+	return s
+}
+
 // compact renders events tersely for the evidence file.
 func compact(evs []vh.J, max int) []string {
 	var s []string
@@ -210,6 +237,8 @@ func compact(evs []vh.J, max int) []string {
 			s = append(s, fmt.Sprintf("Src%v", e["chain"]))
 		case "Reset":
 			s = append(s, fmt.Sprintf("Reset%v", e["chain"]))
+		case "Stop", "Restart":
+			s = append(s, fmt.Sprint(e["ev"]))
 		case "Stored", "Reverted", "NewHead":
 			s = append(s, fmt.Sprintf("%v(b%v)", e["ev"], e["tag"]))
 		case "ReorgMsg":
